@@ -12,6 +12,24 @@ Sub-claims evaluated on the REAL analyzer (auto and cross, all orders, scheduler
      kernels (the |XY| budget of _an.bin_tol), s = sqrt(M2). This budget is proportional to the scatter, not to |mean|^2, so a formula that is
      algebraically the variance but cancels (E|z|^2 - |E z|^2, error ~ u |mean|^2) is exposed on records whose segments are nearly or exactly
      identical (phase-locked lines with a noise floor 1e-5 .. 1e-9 or none, periodic waveforms, DC with order -1): generated on every run.
+  n  the number of segments the scatter is divided by is ONE number: K = navg = len(D) on every bin of every result (integers, exact), also when
+     the overlap is so high that segment starts repeat (compute_single_bin, user schedulers)
+  O  option combinations / entry points / call history (`option_stream`): every block of 16 cases visits every (auto|cross, order -1..2, compute |
+     single-bin family) cell and analyses it with BOTH backends (numpy and numba|auto) under otherwise identical options; entry points
+     (SpectrumAnalyzer.compute, .compute_single_bin(L=), .compute_single_bin(fres=), speckit.compute_spectrum, speckit.lpsd,
+     speckit.compute_single_bin(L= | fres=)), schedulers (4 library + a fixed-length 'Welch' callable + a callable that lists a length again after a
+     different one: a, 4a, a, N, a+1, 4a, a), overlap request forms ('default', a float, exactly 0.0, so high that the shift is below one sample),
+     windows (Kaiser at several psll, hann, two user callables, one not symmetric), layouts (1-D, list, 2xN, Nx2), segment-length forms (L = N,
+     near N, odd, even, small) cycle inside a block from offsets drawn per block; records carry offset + slope + curvature + a line with a phase.
+     All sub-claims above are evaluated on every bin of every result; additionally (iii) every analysis is repeated (same analyzer -- on a third
+     of the cases with the analyzer's other entry point called in between -- or same input object): the second result must be bit-identical (same
+     code path) and the caller's array untouched; (iv) the two backends must report the same plan and agree on XX_mean, YY_mean, XY_M2,
+     XY_emp_var of every bin within twice the kernels' budget.
+  S  size thresholds (`size_stream`): bins with K = c-1, c, c+1, c+17, 2c+3 segments for every chunk constant c mined from the CURRENT source of
+     EVERY NumPy kernel (vk.common.mined_sizes), K = 70 001 and K = 1 100 003 for kernels of both backends (records of 10^5 .. 10^6 samples), through
+     compute_single_bin and through compute() with a user scheduler, on level-step records whose first and last segments carry extra weight;
+     a plan with more bins (2 * largest constant of the analyzer + 3) than any constant in speckit/analysis.py, sampled bins incl. the last
+     against the reference and every bin backend against backend.
   s  (thorough tier, support only, never decided by theorem) for white Gaussian records with independent segments the empirical deviations
      agree with the analytic ones: ratios recorded in the notes, a violation only for a gross (> factor 3) mismatch.
 """
@@ -37,6 +55,9 @@ THEOREMS = {
     "SpecKitV.Props.AttrsB": ["emp_var_formula", "emp_var_nonneg", "emp_var_zero_of_M2_zero", "emp_dev_is_sqrt", "Gxx_emp_dev_formula",
                               "Gxy_emp_dev_formula", "emp_dev_is_scaled_emp", "raw_stats"],
     "SpecKitV.Props.C01": ["reduce_spec", "reduce_M2_all_K", "reduce_M2_nonneg", "reduce_M2_one"],
+    # statistical meaning of the generated XY_emp_var = M2/navg under the standard model (K pairwise uncorrelated / independent products)
+    "SpecKitV.Props.StatModel": ["emp_var_expectation", "mean_z_variance", "emp_var_vs_true", "emp_var_K1_zero", "emp_var_vs_true_of_indep",
+                                 "StatModel.vector_hypotheses_satisfiable"],
 }
 CONTRACTS = ["the M2 handed to SpectrumResult is the reducer's output for the per-segment products of the kernels (C01: every kernel = Ref, reducer = "
              "mean / population variance about the mean); NumPy fallbacks are tied to the same reference by C01's correspondence"]
@@ -51,7 +72,10 @@ RULE = ("cases = (auto record kind noise/offset/drift/red/tone/zero/const | pair
         "scheduler, backend, entry); non-trivial = a bin with K >= 2 and a scatter above its rounding budget; PLUS near-identical-segment records "
         "(line / periodic waveform whose period divides the segment hop of the analysed bin, relative noise floor 0 or 1e-5..1e-9, DC with order -1, "
         "line at the bin frequency under a high-PSLL Kaiser window) x auto/cross x order -1..2 x numba/numpy x single_bin/compute_spectrum; there "
-        "non-trivial = a bin with K >= 2 whose tight scatter budget is below u*|mean|^2/4 (a cancelling variance formula would be seen)")
+        "non-trivial = a bin with K >= 2 whose tight scatter budget is below u*|mean|^2/4 (a cancelling variance formula would be seen); PLUS the "
+        "option stream (every (mode, order, backend, entry family) cell per 16 cases; entry point x scheduler incl. two user callables x overlap form "
+        "incl. repeated starts x window incl. user callables x layout x L form cycled; each analysis twice + both backends) and the size stream "
+        "(K around every mined NumPy chunk constant for all six NumPy kernels, K = 70001 / 1100003 both backends, a 1003-bin plan)")
 
 NAMES = ["XX_mean", "YY_mean", "XY_M2", "XY_emp_var", "XY_emp_dev", "Gxx_emp_dev", "Gxy_emp_dev"]
 AUTO_KINDS = ["noise", "offset", "drift", "red", "tone", "zero", "const"]
@@ -59,6 +83,7 @@ CROSS_KINDS = ["indep", "mixed", "delayed", "strong", "scaled", "zero-y", "const
 U = _an.U
 LD = np.longdouble
 LOCK_KINDS = ["locked-tone", "locked-wave", "line", "dc"]
+VEC_K, VEC_ROWS = 2048, 32768      # reference evaluation: bins with more segments than VEC_K are evaluated block-wise (VEC_ROWS rows at a time)
 
 
 def ref_stats(x: np.ndarray, y: Optional[np.ndarray], D, L: int, w: np.ndarray, om: float, order: int):
@@ -73,6 +98,19 @@ def ref_stats(x: np.ndarray, y: Optional[np.ndarray], D, L: int, w: np.ndarray, 
 
     def dfts(z: np.ndarray):
         re, im, raw = np.zeros(len(D), dtype=LD), np.zeros(len(D), dtype=LD), 0.0
+        if len(D) > VEC_K:          # many segments: the same operations on blocks of rows (gathered (rows, L) matrices), still extended precision
+            Dv, off = np.asarray(D, dtype=np.int64), np.arange(L, dtype=np.int64)
+            for k0 in range(0, len(D), VEC_ROWS):
+                seg = z[Dv[k0:k0 + VEC_ROWS, None] + off[None, :]]
+                raw = max(raw, float(np.abs(seg * w).sum(axis=1).max()))
+                v = seg.astype(LD)
+                if order == 0:
+                    v = v - v.mean(axis=1, keepdims=True)
+                elif order >= 1:
+                    v = v - (v @ Q) @ Q.T
+                v = v * wl
+                re[k0:k0 + VEC_ROWS], im[k0:k0 + VEC_ROWS] = (v * co).sum(axis=1), -(v * si).sum(axis=1)
+            return re, im, raw
         for k, s in enumerate(D):
             v = z[s:s + L].astype(LD)
             if order == 0:
@@ -84,7 +122,7 @@ def ref_stats(x: np.ndarray, y: Optional[np.ndarray], D, L: int, w: np.ndarray, 
             re[k], im[k] = (v * co).sum(), -(v * si).sum()
         return re, im, raw
     xr, xi, a = dfts(x)
-    Xs = np.array([complex(float(p), float(q)) for p, q in zip(xr, xi)])
+    Xs = xr.astype(float) + 1j * xi.astype(float)
     if y is None:
         yr, yi, b = xr, xi, a
         Z = np.abs(Xs) ** 2 + 0j
@@ -92,7 +130,7 @@ def ref_stats(x: np.ndarray, y: Optional[np.ndarray], D, L: int, w: np.ndarray, 
         zr, zi = xr * xr + xi * xi, np.zeros(len(D), dtype=LD)
     else:
         yr, yi, b = dfts(y)
-        Ys = np.array([complex(float(p), float(q)) for p, q in zip(yr, yi)])
+        Ys = yr.astype(float) + 1j * yi.astype(float)
         Z = Xs * np.conj(Ys)
         YY = float(np.mean(np.abs(Ys) ** 2))
         zr, zi = xr * yr + xi * yi, xi * yr - xr * yi
@@ -122,10 +160,13 @@ def tight_tol(K: int, tXY: float, ext) -> float:
 
 
 def check_result(P: C.Part, res, x: np.ndarray, y: Optional[np.ndarray], fs: float, opts: Dict[str, Any], kind: str, src: str, rp: Dict[str, Any],
-                 max_bins: int = 40) -> None:
+                 max_bins: int = 40, wc: Optional[S.WinCache] = None, refcache: Optional[Dict[Any, Any]] = None, big: bool = False) -> None:
+    """every sub-claim on (up to max_bins, spread over the whole axis incl. the last) bins of one result.  wc: the window table (default: from opts;
+    handed in when opts carries the LABEL of a callable window); refcache: shared between analyses of the same record with the same plan (the
+    reference depends on (f, L, D, window, order) only, not on the backend / entry point); big: the many-segment stream (see RED below)."""
     cross = y is not None
     order = int(opts["order"])
-    wc = S.WinCache(opts)
+    wc = wc or S.WinCache(opts)
     with warnings.catch_warnings(), np.errstate(all="ignore"):
         warnings.simplefilter("ignore")
         A = {n: getattr(res, n) for n in NAMES}
@@ -145,15 +186,40 @@ def check_result(P: C.Part, res, x: np.ndarray, y: Optional[np.ndarray], fs: flo
         if n != other and A[n] is None:
             bad("none", 0, f"{n} is None")
             return
+    # the number of segments: sub-claim a divides by it; the result reports it three times (K, navg, len(D)) and the three must agree
+    # (integers, compared exactly; every bin: this costs nothing)
+    try:
+        Kf, Nf = np.asarray(res.K), np.asarray(res.navg)
+        for j in range(nf):
+            P.cases += 1
+            if not (int(Kf[j]) == int(Nf[j]) == len(res.D[j])):
+                bad("segment-count", j, f"the result reports K = {int(Kf[j])}, navg = {int(Nf[j])} and {len(res.D[j])} segment starts: 'the number of "
+                                        f"segments' the scatter is divided by is not one number")
+                return
+    except Exception as ex:
+        bad("segment-count", 0, f"K / navg / D of the result cannot be read: {ex!r}")
+        return
     idx = list(range(nf)) if nf <= max_bins else sorted(set(int(v) for v in np.linspace(0, nf - 1, max_bins)))
     nontriv = False
     for j in idx:
-        L, D = int(res.L[j]), [int(d) for d in res.D[j]]
+        L, D = int(res.L[j]), np.asarray(res.D[j], dtype=np.int64)
         K = len(D)
         w, _, s2 = wc.get(L)
         om = 2 * np.pi * float(res.f[j]) / fs
-        XX, YY, XY, M2, a, b, ext = ref_stats(x, y, D, L, w, om, order)
+        key = (L, float(res.f[j]), K, D.tobytes()) if refcache is not None else None
+        if key is not None and key in refcache:
+            XX, YY, XY, M2, a, b, ext = refcache[key]
+            P.hit("reference shared between backends")
+        else:
+            XX, YY, XY, M2, a, b, ext = ref_stats(x, y, D, L, w, om, order)
+            if key is not None:
+                refcache[key] = (XX, YY, XY, M2, a, b, ext)
         tXX, tYY, tXY, tM2 = _an.bin_tol(L, om, a, b, order)
+        if big:
+            # RED: _an.bin_tol budgets the per-segment products; it has no term for the K-term reductions (means of K non-negative numbers, the
+            # mean entering the deviations), which is negligible for the K <= a few thousand of the other streams but not a priori for K ~ 1e5..1e6
+            # summed sequentially (Numba): worst case (K - 1) u per mean, relative to the mean of the (non-negative) terms.  Added for this stream only.
+            tXX, tYY, tM2 = tXX + 4 * K * U * XX, tYY + 4 * K * U * YY, tM2 + 4 * K * U * (M2 + tM2) + 8 * (K * U) ** 2 * (abs(XY) + tXY) ** 2
         tT = tight_tol(K, tXY, ext)
         ev, ed, gd = float(A["XY_emp_var"][j]), float(A["XY_emp_dev"][j]), float(A[own][j])
         P.cases += 1
@@ -345,6 +411,464 @@ def probe(ctx, P: C.Part) -> None:
                    "  (band for remark 0.5..2 on the median, alarm only outside 1/3..3)")
 
 
+# ---------------------------------------------------------------- Family O: option combinations, entry points, call history
+ORDERS = [-1, 0, 1, 2]
+O_ENTRIES = {"compute": ["an.compute", "compute_spectrum", "lpsd"],
+             "single": ["an.single:L", "mod.single:L", "an.single:fres", "mod.single:fres"]}
+O_SCHEDS = ["lpsd", "custom:welch", "ltf", "custom:relist", "vectorized_ltf", "new_ltf"]
+O_OLAPS = ["default", "float", "zero", "high"]
+O_WINS = [("kaiser", 60.0), ("hann", None), ("call:skew", None), ("kaiser", 200.0), ("call:tri", None), ("kaiser", None)]
+O_LAYOUTS = {False: ["1-D", "list"], True: ["2xN", "Nx2", "list"]}
+O_LFORMS = ["full", "odd", "near-full", "even", "small"]
+O_PLAN = ("f", "L", "K", "navg")
+O_RAW = ("XX", "YY", "XY", "M2", "S2", "S12")
+
+
+def _win_skew(L: int) -> np.ndarray:
+    """a user window: positive, NOT symmetric (a reversed or re-centred window would show)"""
+    n = np.arange(L, dtype=float)
+    return 0.25 + np.sin(np.pi * (n + 0.5) / max(L, 1)) ** 2 + 0.2 * n / max(L, 1)
+
+
+def _win_tri(L: int) -> np.ndarray:
+    """a user window: strictly positive triangle"""
+    return np.asarray(np.bartlett(L + 2)[1:-1], dtype=float)
+
+
+CALL_WINS = {"call:skew": _win_skew, "call:tri": _win_tri}
+
+
+def custom_scheduler(spec: Dict[str, Any]):
+    """A user scheduler (callable handed to the analyzer) described by a JSON-serialisable spec = {"kind", "L": [...], "b": [...], optional "hop": [...]}:
+    bin j has segment length L[j] (clipped to N), frequency b[j] * fs / L[j] and
+      - with "hop": K[j] segments at 0, hop, 2 hop, ... (K[j] from spec["K"])                        -- the many-segment stream,
+      - otherwise segments spread evenly over the record for the requested overlap, exactly as compute_single_bin places them: starts REPEAT
+        once (1 - olap) * L < 1 (a user scheduler may list a segment twice; K = navg = len(D) counts every listed segment).
+    'welch' = one fixed length for all bins; 'relist' = a length listed again after a different one (L = a, 4a, a, N, a+1, 4a, a)."""
+    def sched(**kw):
+        N, fs, olap = int(kw["N"]), float(kw["fs"]), float(kw["olap"])
+        Ls, f, D = [], [], []
+        for j, (L0, b) in enumerate(zip(spec["L"], spec["b"])):
+            L = max(1, min(int(L0), N))
+            if "hop" in spec:
+                d = np.arange(int(spec["K"][j]), dtype=np.int64) * int(spec["hop"][j])
+            elif L >= N:
+                d = np.zeros(1, dtype=np.int64)
+            else:
+                K = max(1, int(math.floor((N - L) / max((1.0 - olap) * L, 1e-9) + 1.5)))
+                d = np.floor(np.arange(K) * ((N - L) / (K - 1)) + 0.5).astype(np.int64) if K > 1 else np.zeros(1, dtype=np.int64)
+            Ls.append(L)
+            f.append(float(b) * fs / L)
+            D.append(d)
+        Ls = np.asarray(Ls, dtype=np.int64)
+        f = np.asarray(f, dtype=float)
+        K = np.array([len(d) for d in D], dtype=np.int64)
+        O = np.array([0.0 if len(d) < 2 else max(0.0, 1.0 - float(d[1] - d[0]) / float(l)) for d, l in zip(D, Ls)])
+        return {"f": f, "r": fs / Ls, "b": f * Ls / fs, "L": Ls, "K": K, "navg": K.copy(), "D": D, "O": O}
+    sched.__name__ = "custom_" + str(spec.get("kind", "plan"))
+    return sched
+
+
+def resolve_kw(kw: Dict[str, Any], order: int, backend: str) -> Dict[str, Any]:
+    """JSON-able option description -> keyword arguments of the analyzer (labels of callables replaced by the callables)"""
+    o = {k: v for k, v in kw.items() if k != "sched_spec"}
+    if isinstance(o.get("win"), str) and o["win"] in CALL_WINS:
+        o["win"] = CALL_WINS[o["win"]]
+    if isinstance(o.get("scheduler"), str) and o["scheduler"].startswith("custom:"):
+        o["scheduler"] = custom_scheduler(kw["sched_spec"])
+    if o.get("band") is not None:
+        o["band"] = tuple(o["band"])
+    o["order"], o["backend"] = int(order), backend
+    return o
+
+
+def wincache_for(kw: Dict[str, Any]) -> S.WinCache:
+    win = kw.get("win", "kaiser")
+    return S.WinCache({"win": CALL_WINS.get(win, win), "psll": kw.get("psll", 200.0)})
+
+
+def lay_out(x: np.ndarray, y: Optional[np.ndarray], layout: str):
+    if y is None:
+        return [float(v) for v in x] if layout == "list" else np.array(x, dtype=np.float64)
+    if layout == "list":
+        return [[float(v) for v in x], [float(v) for v in y]]
+    return S.stack(np.asarray(x, dtype=np.float64), np.asarray(y, dtype=np.float64), layout)
+
+
+def call_entry(case: Dict[str, Any], data, backend: str):
+    """(first result, result of the SECOND identical call): on the same analyzer for the 'an.' entries -- optionally with the other entry point of
+    that analyzer called in between -- and on the same input object for the module-level functions"""
+    import speckit
+    from speckit.analysis import SpectrumAnalyzer
+    kw = resolve_kw(case["kw"], case["order"], backend)
+    entry, fs, sg = case["entry"], float(case["fs"]), case.get("single")
+    sarg = {}
+    if sg is not None:
+        sarg = {"L": int(sg["L"])} if entry.endswith(":L") else {"fres": fs / int(sg["L"])}
+    with warnings.catch_warnings(), np.errstate(all="ignore"):
+        warnings.simplefilter("ignore")
+        if entry.startswith("an."):
+            an = SpectrumAnalyzer(data, fs, **kw)
+            go = an.compute if entry == "an.compute" else (lambda: an.compute_single_bin(float(sg["freq"]), **sarg))
+            r1 = go()
+            if case.get("interleave"):
+                try:
+                    if entry == "an.compute":
+                        m = len(r1.f) // 2
+                        an.compute_single_bin(float(r1.f[m]), L=int(r1.L[m]))
+                    else:
+                        an.compute()
+                except Exception:
+                    pass
+            return r1, go()
+        if entry in ("compute_spectrum", "lpsd"):
+            fn = getattr(speckit, entry)
+            return fn(data, fs, **kw), fn(data, fs, **kw)
+        fn = speckit.compute_single_bin
+        return fn(data, fs, float(sg["freq"]), **sarg, **kw), fn(data, fs, float(sg["freq"]), **sarg, **kw)
+
+
+def _bits(a) -> bytes:
+    return b"None" if a is None else np.ascontiguousarray(a).tobytes()
+
+
+def result_diff(r1, r2) -> Optional[str]:
+    """None if the two results are bit-identical (plan, raw statistics, every C11 attribute), else the first field that differs"""
+    with warnings.catch_warnings(), np.errstate(all="ignore"):
+        warnings.simplefilter("ignore")
+        if len(r1.f) != len(r2.f):
+            return f"number of bins {len(r1.f)} / {len(r2.f)}"
+        for n in O_PLAN + O_RAW + tuple(NAMES):
+            a, b = getattr(r1, n), getattr(r2, n)
+            if _bits(a) != _bits(b):
+                j = 0
+                if a is not None and b is not None and np.shape(a) == np.shape(b):
+                    df = np.flatnonzero(np.asarray(a) != np.asarray(b))
+                    j = int(df[0]) if len(df) else 0
+                    return f"{n}[{j}] = {np.asarray(a)[j]!r} / {np.asarray(b)[j]!r}"
+                return f"{n}: {a!r} / {b!r}"
+        for j in range(len(r1.f)):
+            if _bits(np.asarray(r1.D[j], dtype=np.int64)) != _bits(np.asarray(r2.D[j], dtype=np.int64)):
+                return f"segment starts of bin {j}"
+    return None
+
+
+def trend_record(rng: np.random.Generator, N: int, cross: bool, kind: str):
+    """noise + offset + slope + curvature + a line with a phase (all of the order of the noise, so that none of them hides in the rounding budget of
+    another), second channel: delayed copy + own noise, own trend, own phase, own scale"""
+    n = np.arange(N)
+    t = n / max(N - 1, 1) - 0.37
+
+    def one(sc: float) -> np.ndarray:
+        c = rng.uniform(-3, 3, 3)
+        return sc * (rng.standard_normal(N) + c[0] + 2 * c[1] * t + 3 * c[2] * t * t +
+                     float(rng.uniform(0.5, 2.0)) * np.sin(2 * np.pi * float(rng.uniform(0.02, 0.4)) * n + float(rng.uniform(0, 2 * np.pi))))
+    x0 = one(1.0)
+    x, y = float(10 ** rng.uniform(-2, 2)) * x0, None
+    if cross:
+        y = float(10 ** rng.uniform(-2, 2)) * (0.6 * np.roll(x0, int(rng.choice([1, 2, 5]))) + one(0.7))
+    if kind == "const":
+        x = np.full(N, float(rng.uniform(-5, 5)))
+    elif kind == "zero-y" and cross:
+        y = np.zeros(N)
+    elif kind == "zero":
+        x = np.zeros(N)
+    return x, y
+
+
+def opt_case(rng: np.random.Generator, i: int, rot: Dict[str, int], thorough: bool):
+    """Case i of the option stream -> (case description (JSON-able), x, y).
+    i % 2 -> auto / cross, (i // 2) % 4 -> order, (i // 8) % 2 -> entry family compute / single bin: every block of 16 cases visits every (mode, order,
+    family) cell, and every case is analysed by BOTH backends with otherwise identical options.  Entry point, scheduler, overlap request form,
+    window kind, layout and segment-length form step through their lists inside a block (different strides) from offsets `rot` drawn per block."""
+    k, cross, order = i % 8, i % 2 == 1, ORDERS[(i // 2) % 4]
+    fam = "single" if (i // 8) % 2 else "compute"
+    entry = O_ENTRIES[fam][(k + rot["entry"]) % len(O_ENTRIES[fam])]
+    olap_form = O_OLAPS[(3 * k + rot["olap"]) % 4]
+    win, psll = O_WINS[(5 * k + rot["win"]) % 6]
+    layout = O_LAYOUTS[cross][(k // 2 + rot["layout"]) % len(O_LAYOUTS[cross])]
+    fs = float(rng.choice([1.0, 2.0, 1000.0, float(rng.uniform(0.1, 1e4))]))
+    kind = ["const", "zero-y" if cross else "zero"][i % 2] if (i // 16 + k) % 23 == 22 else "trend"
+    kw: Dict[str, Any] = {"win": win}
+    if win == "kaiser":
+        kw["psll"] = float(psll if psll is not None else rng.uniform(40, 220))
+    case: Dict[str, Any] = {"cross": cross, "order": order, "entry": entry, "fs": fs, "layout": layout, "kind": kind, "olap_form": olap_form,
+                            "interleave": bool((k + rot["inter"]) % 3 == 0), "backends": ["numpy", "numba" if (i // 16) % 3 else "auto"]}
+    kw.update({"Jdes": int(rng.integers(5, 11)), "Kdes": int(rng.choice([1, 2, 5, 20])), "bmin": float(rng.choice([1.0, 2.0, 3.5])),
+               "Lmin": int(rng.choice([1, 8]))})
+    if fam == "single":
+        N = int(rng.choice([64, 101, 150] if olap_form == "high" else [64, 101, 257, 400, 600]))
+        lf = O_LFORMS[(k + rot["L"]) % 5]
+        if olap_form == "high" and lf != "full":        # (segments x length kept below ~4000 samples per bin: cheap on every backend)
+            lf = "small"
+        L = {"full": N, "near-full": int(N * float(rng.uniform(0.55, 0.9))), "odd": 2 * int(rng.integers(2, max(3, N // 6))) + 1,
+             "even": 2 * int(rng.integers(2, max(3, N // 6))), "small": int(rng.integers(3, 17))}[lf]
+        L = max(2, min(L, N))
+        freq = float(rng.uniform(0.01, 0.49)) * fs if rng.random() < 0.8 else fs * int(rng.integers(1, max(2, L // 2))) / L
+        case["single"] = {"freq": freq, "L": L}
+        case["lform"] = lf
+        kw["olap"] = {"default": "default", "float": round(float(rng.uniform(0.1, 0.85)), 3), "zero": 0.0,
+                      "high": 1.0 - float(rng.uniform(0.5, 0.95)) / L}[olap_form]           # high: the shift between segments is below one sample
+        kw["scheduler"] = "vectorized_ltf"
+    else:
+        N = int(rng.choice([60, 101, 140] if olap_form == "high" else [120, 240, 401, 600]))
+        sched = O_SCHEDS[(k + rot["sched"]) % 6]
+        kw["scheduler"] = sched
+        Lref = N
+        if sched == "custom:welch":
+            L = int(rng.choice([N // 5, N // 5 + 1, N // 3, 33, 64] if olap_form != "high" else [N // 5, N // 5 + 1, 9, 16]))
+            nb = int(rng.integers(3, 7))
+            kw["sched_spec"] = {"kind": "welch", "L": [L] * nb, "b": [round(float(v), 3) for v in np.sort(rng.uniform(1.0, L / 2, nb))]}
+            Lref = L
+        elif sched == "custom:relist":
+            a = max(4, N // int(rng.choice([5, 6, 9])))
+            Ls = [a, 4 * a, a, N, a + 1, 4 * a, a]
+            kw["sched_spec"] = {"kind": "relist", "L": Ls, "b": [round(float(rng.uniform(1.0, min(8.0, l / 2))), 3) for l in Ls]}
+            Lref = a
+        elif (k + rot["band"]) % 4 == 0:
+            kw["band"] = [0.04 * fs, 0.42 * fs]
+        if sched.startswith("custom:"):
+            kw["Lmin"] = 1                     # the analyzer rejects a plan with L < Lmin; the user plans go down to L = 4
+        kw["olap"] = {"default": "default", "float": round(float(rng.uniform(0.1, 0.85)), 3), "zero": 0.0,
+                      "high": (1.0 - 0.7 / Lref) if sched.startswith("custom:") else 0.95}[olap_form]
+        case["single"] = None
+    case["kw"], case["N"] = kw, N
+    x, y = trend_record(rng, N, cross, kind)
+    return case, x, y
+
+
+def compare_backends(P: C.Part, case: Dict[str, Any], ra, rb, x: np.ndarray, y: Optional[np.ndarray], wc: S.WinCache, rp: Dict[str, Any]) -> None:
+    """(iv) two backends, otherwise identical options: the same plan (exactly) and, on EVERY bin, raw statistics and empirical variance within twice
+    the kernels' rounding budget (_an.bin_tol with a, b bounded by max|x| * sum|w| >= the supremum over the segments; each backend is within one
+    budget of the exact value)."""
+    cross, order, fs = y is not None, int(case["order"]), float(case["fs"])
+    ba, bb = case["backends"]
+    sig = {"src": "opt:" + case["entry"], "mode": "cross" if cross else "auto", "kind": case["kind"], "order": order}
+
+    def bad(check: str, j: int, msg: str) -> None:
+        S.add_violation(P, f"opt:{case['entry']} {'cross' if cross else 'auto'} order={order} sched={case['kw'].get('scheduler')} win={case['kw'].get('win')} "
+                           f"olap={case['kw'].get('olap')!r} layout={case['layout']} bin {j}: backends {ba} / {bb}: {msg}", dict(sig, check=check),
+                        dict(rp, check=check, bin=int(j)))
+    P.cases += 1
+    if len(ra.f) != len(rb.f) or any(_bits(getattr(ra, n)) != _bits(getattr(rb, n)) for n in O_PLAN) or \
+            any(_bits(np.asarray(ra.D[j], dtype=np.int64)) != _bits(np.asarray(rb.D[j], dtype=np.int64)) for j in range(len(ra.f))):
+        bad("backend-plan", 0, "different plans (f / L / K / navg / D) for the same record and options")
+        return
+    with warnings.catch_warnings(), np.errstate(all="ignore"):
+        warnings.simplefilter("ignore")
+        A = {n: getattr(ra, n) for n in NAMES}
+        B = {n: getattr(rb, n) for n in NAMES}
+    if any((A[n] is None) != (B[n] is None) for n in NAMES):
+        bad("backend-none", 0, "an attribute is None for one backend only")
+        return
+    ax, ay = float(np.abs(x).max(initial=0.0)), float(np.abs(y).max(initial=0.0)) if cross else 0.0
+    for j in range(len(ra.f)):
+        L, K = int(ra.L[j]), len(ra.D[j])
+        _, s1, _ = wc.get(L)
+        om = 2 * np.pi * float(ra.f[j]) / fs
+        a = ax * s1 + 1e-300
+        tXX, tYY, _, tM2 = _an.bin_tol(L, om, a, (ay * s1 + 1e-300) if cross else a, order)
+        P.cases += 1
+        for n, t in (("XX_mean", 2 * tXX), ("YY_mean", 2 * tYY), ("XY_M2", 2 * tM2), ("XY_emp_var", 2 * tM2 / max(K, 1))):
+            va, vb = float(A[n][j]), float(B[n][j])
+            if not S.within("backends:" + n, abs(va - vb), t + 4 * U * max(abs(va), abs(vb))):
+                bad("backend-agreement", j, f"{n} = {va!r} / {vb!r} (L={L}, K={K}, allowance {t:.3g})")
+                break
+
+
+def run_opt_case(P: C.Part, case: Dict[str, Any], x: np.ndarray, y: Optional[np.ndarray], max_bins: int = 40) -> None:
+    cross, order, entry = y is not None, int(case["order"]), case["entry"]
+    rp = {"opt": case, "x": np.asarray(x).tolist(), "y": None if y is None else np.asarray(y).tolist()}
+    sig = {"src": "opt:" + entry, "mode": "cross" if cross else "auto", "kind": case["kind"], "order": order}
+    wc = wincache_for(case["kw"])
+    refcache: Dict[Any, Any] = {}
+    xf, yf = np.asarray(x, dtype=float), None if y is None else np.asarray(y, dtype=float)
+    results = {}
+    for be in case["backends"]:
+        data = lay_out(xf, yf, case["layout"])
+        keep = [list(r) for r in data] if (cross and isinstance(data, list)) else (list(data) if isinstance(data, list) else data.copy())
+        label = (f"opt:{entry} {'cross' if cross else 'auto'} order={order} backend={be} sched={case['kw'].get('scheduler')} win={case['kw'].get('win')} "
+                 f"olap={case['kw'].get('olap')!r} layout={case['layout']}")
+        try:
+            r1, r2 = call_entry(case, data, be)
+        except Exception as ex:
+            P.hit(f"opt rejected:{type(ex).__name__}:{be}")
+            results[be] = None
+            continue
+        P.cases += 2
+        same_in = (data == keep) if isinstance(data, list) else (data.tobytes() == keep.tobytes())
+        if not same_in:                                                                                                       # (iii) untouched input
+            S.add_violation(P, f"{label}: the caller's input array was modified by the analysis", dict(sig, check="input-modified"), dict(rp, check="input-modified"))
+        try:
+            df = result_diff(r1, r2)
+        except Exception as ex:
+            df = f"the results cannot be compared: {ex!r}"
+        if df is not None:                                                                                                    # (iii) second call
+            S.add_violation(P, f"{label}: the second identical call ({'same analyzer' if entry.startswith('an.') else 'same input array'}"
+                               f"{', other entry point called in between' if case.get('interleave') and entry.startswith('an.') else ''}) "
+                               f"gives a different result: {df} (first / second)", dict(sig, check="second-call"), dict(rp, check="second-call"))
+        o = {"order": order, "win": case["kw"].get("win"), "psll": case["kw"].get("psll"), "scheduler": case["kw"].get("scheduler"), "backend": be}
+        check_result(P, r1, xf, yf, float(case["fs"]), o, case["kind"], "opt:" + entry, rp, max_bins, wc=wc, refcache=refcache)
+        results[be] = r1
+        fam = "single" if case["single"] else "compute"
+        P.hit(f"opt cell {'cross' if cross else 'auto'} order={order} {be if be != 'auto' else 'numba'} {fam}")
+        for kk in ("entry", "layout", "olap_form"):
+            P.hit(f"opt {kk}={case[kk]}")
+        P.hit(f"opt sched={case['kw'].get('scheduler')}" if fam == "compute" else f"opt L-form={case.get('lform')}")
+        P.hit(f"opt win={case['kw'].get('win')}")
+        if any(len(d) > len(np.unique(d)) for d in r1.D):
+            P.hit("opt repeated segment starts")
+    ra, rb = (results.get(b) for b in case["backends"])
+    if ra is not None and rb is not None:
+        try:
+            compare_backends(P, case, ra, rb, xf, yf, wc, rp)
+        except Exception as ex:            # a field that cannot be read has been reported by check_result already
+            P.hit("opt backends not comparable:" + type(ex).__name__)
+    elif (ra is None) != (rb is None):
+        P.hit("opt rejected by one backend only")
+
+
+def option_stream(ctx, P: C.Part, rng: np.random.Generator, n: int) -> None:
+    rot: Dict[str, int] = {}
+    t0 = ctx.time_left()
+    for i in range(n):
+        if ctx.time_left() < (600 if ctx.thorough else 40) or len(P.violations) >= S.MAX_VIOL:
+            break
+        if i % 8 == 0:
+            rot = {k: int(rng.integers(0, 60)) for k in ("entry", "olap", "win", "layout", "L", "sched", "inter", "band")}
+        case, x, y = opt_case(rng, i, rot, ctx.thorough)
+        run_opt_case(P, case, x, y, max_bins=40)
+        if i in (0, 8):
+            P.sample({"op": "oracle-options", **{k: v for k, v in case.items()}})
+    cells = sorted(k for k in P.histogram if k.startswith("opt cell "))
+    P.notes.append(f"option stream: {len(cells)}/32 (mode, order, backend, entry family) cells visited, each analysed twice (second call bit-identical, "
+                   f"input untouched) and by both backends; {P.histogram.get('opt repeated segment starts', 0)} analyses with repeated segment starts; "
+                   f"{t0 - ctx.time_left():.1f}s")
+
+
+# ---------------------------------------------------------------- Family S: size thresholds (segments per bin, record length, bins per plan)
+NP_KERNELS = {(-1, False): "_stats_win_only_auto_np", (-1, True): "_stats_win_only_csd_np", (0, False): "_stats_detrend0_auto_np",
+              (0, True): "_stats_detrend0_csd_np", (1, False): "_stats_poly_auto_np", (1, True): "_stats_poly_csd_np"}
+
+
+def chunk_constants() -> Dict[Any, List[int]]:
+    """segment-count thresholds of the NumPy kernels, read from the CURRENT source (chunk sizes 32768 / 16384 / 8192 on the unchanged tree); a kernel
+    without a constant of its own (renamed, constant moved to module level) gets every constant of the file"""
+    every = [c for c in C.mined_sizes(["speckit/core.py"]) if 1024 <= c <= 300000]
+    out = {}
+    for key, name in NP_KERNELS.items():
+        cs = [c for c in C.mined_sizes(["speckit/core.py"], names=[name]) if 256 <= c <= 300000]
+        out[key] = cs or every
+    return out
+
+
+def size_record(seed: int, N: int, L: int, cross: bool):
+    """level step at 55..85 % of the record (a scatter about a per-chunk / running mean differs from the scatter about the bin's mean), plus a burst
+    on the first and on the last 2L samples (the first and the last segments carry weight: a dropped or doubled end block shows), offset 0.5"""
+    r = np.random.default_rng(seed)
+    g = np.ones(N)
+    g[int(N * float(r.uniform(0.55, 0.85))):] = float(r.uniform(2.0, 4.0))
+    g[:2 * L] *= 3.0
+    g[max(0, N - 2 * L):] *= 2.0
+    x = g * r.standard_normal(N) + 0.5
+    y = (0.6 * np.roll(x, 1) + g * r.standard_normal(N)) if cross else None
+    return x, y
+
+
+def run_size_case(P: C.Part, rc: Dict[str, Any]) -> Optional[Any]:
+    """one many-segment bin: K segments of length L every `hop` samples, through compute_single_bin (olap = 1 - hop/L) or through compute() with a
+    user scheduler listing exactly these segments (plus an ordinary second bin).  The record is regenerated from rc["seed"] (replays stay small)."""
+    K, L, hop, order, cross, be = int(rc["K"]), int(rc["L"]), int(rc["hop"]), int(rc["order"]), bool(rc["cross"]), rc["backend"]
+    N = (K - 1) * hop + L
+    x, y = size_record(int(rc["seed"]), N, L, cross)
+    data = x if not cross else np.vstack([x, y])
+    keep = data.copy()
+    opts = {"order": order, "win": "hann", "backend": be, "olap": 1.0 - hop / L, "scheduler": rc["entry"]}
+    import speckit
+    try:
+        with warnings.catch_warnings(), np.errstate(all="ignore"):
+            warnings.simplefilter("ignore")
+            if rc["entry"] == "single":
+                res = speckit.compute_single_bin(data, 1.0, float(rc["freq"]), L=L, order=order, win="hann", backend=be, olap=opts["olap"])
+            else:
+                spec = {"kind": "many", "L": [L, 48], "b": [float(rc["freq"]) * L, 5.3], "hop": [hop, 24], "K": [K, min(5, max(1, (N - 48) // 24 + 1))]}
+                res = speckit.compute_spectrum(data, 1.0, scheduler=custom_scheduler(spec), order=order, win="hann", backend=be, olap=0.5)
+    except Exception as ex:
+        P.hit(f"size rejected:{type(ex).__name__}")
+        return None
+    rp = {"size": dict(rc)}
+    mode = "cross" if cross else "auto"
+    if data.tobytes() != keep.tobytes():
+        S.add_violation(P, f"size stream {rc}: the caller's input array was modified by the analysis",
+                        {"src": "size:" + rc["entry"], "mode": mode, "kind": "level-step/many-segments", "order": order, "check": "input-modified"},
+                        dict(rp, check="input-modified"))
+    check_result(P, res, x, y, 1.0, opts, "level-step/many-segments", "size:" + rc["entry"], rp, max_bins=4, big=True)
+    Kres = len(res.D[0])
+    P.hit(f"size {be} order={order} {mode}: K={Kres}" + ("" if Kres == K else f" (wanted {K})"))
+    P.hit(f"chunked:order{order}:{mode}")
+    return res
+
+
+def size_stream(ctx, P: C.Part, rng: np.random.Generator, level: int) -> None:
+    """K just below / at / above every mined chunk constant for EVERY NumPy kernel (short L keeps the reference cheap), K = 70 001 for every kernel
+    of both backends, K = 1 100 003 for a rotating (quick) / every (full) kernel, and one plan with more bins than any constant of the analyzer.
+    level 0 = quick tier (three sizes per constant, a third of the 70 001 cases, three large ones), 1 = an obligation broke (all five sizes per constant,
+    70 001 for all twelve kernels, four large ones), 2 = thorough tier (everything, 1 100 003 for all twelve kernels)."""
+    full = level >= 1
+    t0 = ctx.time_left()
+    cc = chunk_constants()
+    floor = 600 if ctx.thorough else 45
+    todo: List[Dict[str, Any]] = []
+    r0 = int(rng.integers(0, 1000))
+    for n, ((order, cross), cs) in enumerate(sorted(cc.items())):
+        for c in cs[:3]:
+            sizes = [c - 1, c, c + 1, c + 17, 2 * c + 3]
+            if not full:
+                sizes = [c + 1, 2 * c + 3, [c - 1, c, c + 17][(n + r0) % 3]]
+            for m, K in enumerate(sizes):
+                if K * 4 > 1_400_000 and not full:
+                    continue
+                todo.append({"order": (1 + (m + n + r0) % 2) if order == 1 else order, "cross": cross, "backend": "numpy", "K": int(K),
+                             "entry": "single" if (m + n) % 3 else "plan"})
+    beyond = [(70001, be, order, cross) for be in ("numpy", "numba") for (order, cross) in sorted(NP_KERNELS)]
+    big = [(1100003, be, order, cross) for be in ("numpy", "numba") for (order, cross) in sorted(NP_KERNELS)]
+    if level == 0:
+        beyond = [b for n, b in enumerate(beyond) if (n + r0) % 3 == 0]
+    if level <= 1:              # K = 1 100 003 where a case costs about a second (two rotating Numba kernels; NumPy: one of the two kernels with the
+        # largest chunks), K = 150 001 for a rotating one of the other NumPy kernels; every kernel in the thorough tier
+        ks = sorted(NP_KERNELS)
+        big = [(1100003, "numba", *ks[r0 % 6]), (1100003, "numpy", [-1, 0][r0 % 2], False), (150001, "numpy", *[k for k in ks if k[1] or k[0] == 1][r0 % 4])]
+        if level == 1:
+            big.append((1100003, "numba", *ks[(r0 + 3) % 6]))
+    for n, (K, be, order, cross) in enumerate(beyond + big):
+        todo.append({"order": (1 + (n + r0) % 2) if order == 1 else order, "cross": cross, "backend": be, "K": K, "entry": "single" if n % 2 else "plan"})
+    for n, rc in enumerate(todo):
+        if ctx.time_left() < floor or len(P.violations) >= S.MAX_VIOL:
+            P.notes.append(f"size stream stopped after {n} of {len(todo)} cases (time)")
+            break
+        L = int(rng.integers(3, 7)) if rc["K"] < 200000 else 3
+        rc.update({"L": L, "hop": [L - L // 2, 1, L][(n + r0) % 3] if rc["K"] < 200000 else 1, "seed": int(rng.integers(0, 2 ** 62)),
+                   "freq": float(rng.uniform(0.05, 0.45))})
+        run_size_case(P, rc)
+    # more bins than any constant of the analyzer (Jdes default 500, ...): both backends, sampled bins incl. the last against the reference,
+    # every bin backend against backend
+    consts = [c for c in C.mined_sizes(["speckit/analysis.py"], names=["SpectrumAnalyzer", "compute_spectrum", "lpsd"]) if 64 <= c <= 4000] or [500]
+    if ctx.time_left() > floor and len(P.violations) < S.MAX_VIOL:
+        N, L = 600, int(rng.choice([48, 63]))         # a user scheduler with that many bins (a library plan of a short record has fewer)
+        Jd = int(min(max(consts) * 2 + 3, 2500))
+        cross = bool(r0 % 2)
+        case = {"cross": cross, "order": ORDERS[r0 % 4], "entry": ["compute_spectrum", "an.compute"][(r0 // 4) % 2], "fs": 1.0,
+                "layout": "2xN" if cross else "1-D", "kind": "trend", "olap_form": "float", "interleave": False, "backends": ["numpy", "numba"],
+                "single": None, "N": N,
+                "kw": {"win": "hann", "olap": 0.5, "Jdes": Jd, "Kdes": 20, "bmin": 1.0, "Lmin": 1, "scheduler": "custom:welch",
+                       "sched_spec": {"kind": "welch", "L": [L] * Jd, "b": [round(float(v), 4) for v in np.sort(rng.uniform(1.0, L / 2, Jd))]}}}
+        x, y = trend_record(rng, N, cross, "trend")
+        run_opt_case(P, case, x, y, max_bins=8 if level == 0 else 24)
+        P.hit(f"size: plan with {Jd} bins")
+    P.notes.append(f"size stream: chunk constants mined from speckit/core.py {sorted(set(c for v in cc.values() for c in v))}; {len(todo)} many-segment "
+                   f"bins planned, largest K = {max(t['K'] for t in todo)}; {t0 - ctx.time_left():.1f}s")
+
+
 # ---------------------------------------------------------------- entry points
 def correspondence(ctx) -> C.Part:
     """(a) generated Lean attribute table vs the real __getattr__ for the C11 names; (b) generated reducer (Float) vs _reduce_stats_nb / _reduce_stats"""
@@ -401,6 +925,9 @@ def oracle(ctx, intensive: bool = False, hints: List[Dict[str, Any]] = ()) -> C.
             for e in (1e-7, 0.0):
                 run_case(P, lx + e * nx, None, 1000.0, o, "locked-tone", {"freq": 50.0, "L": 200})
                 run_case(P, lx + e * nx, ly + e * ny, 1000.0, o, "locked-tone", {"freq": 50.0, "L": 200})
+    # option combinations x entry points x call history (Family O): every (mode, order, backend, entry family) cell on every run
+    kids = rng.spawn(2)
+    option_stream(ctx, P, kids[0], ctx.scale(128, 960) * (4 if intensive else 1))
     # near-identical-segment stream (sub-claim t is evaluated on every case of the oracle; this stream makes it sharp)
     n_lock = ctx.scale(60, 480) * (4 if intensive else 1)
     for i in range(n_lock):
@@ -410,25 +937,9 @@ def oracle(ctx, intensive: bool = False, hints: List[Dict[str, Any]] = ()) -> C.
         run_case(P, x, y, fs, opts, kind, single, max_bins=40)
         if i < 2:
             P.sample({"op": "oracle-locked", "mode": "cross" if y is not None else "auto", "kind": kind, "N": len(x), "fs": fs, "opts": opts, "single": single})
-    # chunked reduction of the NumPy kernels (they process the segments of a bin in chunks of 32768 / 16384 / 8192): bins with MORE segments than
-    # one chunk, on records whose level changes along the record, so that a scatter taken about a per-chunk or running mean differs from the
-    # scatter about the bin's mean (seeded defect C11d). Short segments keep the reference evaluation cheap.
-    n_chunk = ctx.scale(4, 12) * (2 if intensive else 1)
-    for i in range(n_chunk):
-        if ctx.time_left() < (600 if ctx.thorough else 60) or len(P.violations) >= S.MAX_VIOL:
-            break
-        order = (0, -1, 1, 2)[i % 4]
-        cross = bool((i // 4) % 2) if i >= 4 else False
-        L = int(rng.integers(3, 7))
-        K_min = {0: 32768, -1: 32768, 1: 16384 if not cross else 8192, 2: 16384 if not cross else 8192}[order]
-        N = int((K_min + int(rng.integers(200, 3000))) * (L - L // 2) + L)          # hop L - L//2 at olap 0.5  =>  K > one chunk
-        g = np.ones(N)
-        g[int(N * float(rng.uniform(0.55, 0.85))):] = float(rng.uniform(2.0, 4.0))   # level step
-        x = g * rng.standard_normal(N) + 0.5
-        y = (0.6 * np.roll(x, 1) + g * rng.standard_normal(N)) if cross else None
-        opts = {"order": order, "olap": 0.5, "win": "hann", "backend": "numpy"}
-        run_case(P, x, y, 1.0, opts, "level-step/many-segments", {"freq": float(rng.uniform(0.05, 0.45)), "L": L}, max_bins=1)
-        P.hit(f"chunked:order{order}:{'cross' if cross else 'auto'}")
+    # size thresholds (Family S): K around every chunk constant mined from the current source for EVERY NumPy kernel, K = 70 001 / 1 100 003 for
+    # both backends, a plan with more bins than any constant of the analyzer; level-step records with weighted ends (seeded defect C11d lives here)
+    size_stream(ctx, P, kids[1], 2 if ctx.thorough else (1 if intensive else 0))
     det = sorted(k[1:] for k in P.nontrivial if k[0] == "tight")
     P.notes.append(f"near-identical-segment region: {P.histogram.get('tight:detectable', 0)} bins so far where an error of "
                    f"u*|mean|^2/4 in the scatter would be seen; distinct (entry, mode, order, backend, exactly-identical): {len(det)}")
@@ -470,6 +981,10 @@ def replay(ctx, data) -> C.Part:
         rp = v["replay"]
         if rp.get("probe"):
             probe(ctx, P)
+        elif "opt" in rp:
+            run_opt_case(P, rp["opt"], np.array(rp["x"], dtype=float), None if rp.get("y") is None else np.array(rp["y"], dtype=float))
+        elif "size" in rp:
+            run_size_case(P, rp["size"])
         else:
             y = None if rp.get("y") is None else np.array(rp["y"], dtype=float)
             run_case(P, np.array(rp["x"], dtype=float), y, float(rp["fs"]), rp["opts"], rp["kind"], rp["single"])
